@@ -266,7 +266,110 @@ def jobs(tier):
     for (modn, cls, ckw, win, nout, mg, tag) in I:
         js.append(Job("%s_%s" % (cls.lower(), tag), job_intel, dict(modname=modn, clsname=cls, ckw=ckw, win=win, nout=nout, margin=mg, tag=tag), cost=40 * nout * nout, timeout_s=7000))
     js.append(Job("nxpll_low_1out", job_nx, dict(win=dict(clki_div=(1, 2), clkfb_div=(80, 3), clko_div=(1, 3)), nout=1, margin=1e-2, tag="low_1out"), cost=20, timeout_s=7000))
+    js.append(Job("gw1npll_low_1out", job_gowin, dict(win=dict(idiv=(1, 2), fdiv=(1, 3)), nout=1, margin=1e-2, tag="low_1out"), cost=30, timeout_s=7000))
     if T:
         js.append(Job("nxpll_mid_2out", job_nx, dict(win=dict(clki_div=(2, 2), clkfb_div=(30, 2), clko_div=(4, 3)), nout=2, margin=1e-2, tag="mid_2out"), cost=100, timeout_s=7000))
-        js.append(Job("nxpll_high_1out", job_nx, dict(win=dict(clki_div=(127, 2), clkfb_div=(127, 2), clko_div=(126, 3)), nout=1, margin=1e-3, tag="high_1out"), cost=30, timeout_s=7000))
+        js.append(Job("gw1npll_mid_2out", job_gowin, dict(win=dict(idiv=(1, 2), fdiv=(2, 2)), nout=2, margin=1e-2, tag="mid_2out"), cost=900, timeout_s=7000))
+        js.append(Job("nxpll_high_1out", job_nx, dict(win=dict(clki_div=(5, 2), clkfb_div=(100, 2), clko_div=(126, 3)), nout=1, margin=1e-3, tag="high_1out"), cost=30, timeout_s=7000))
     return js
+
+
+# ---------------------------------------------------------------------------------------------------------------------
+# Gowin GW1NPLL: the divider loops are literal range(1, 64) calls inside compute_config; they are windowed by replacing the
+# module's `range` (first call = input divider, later calls = feedback divider); the output divider list is the code's own literal
+# ---------------------------------------------------------------------------------------------------------------------
+ODIVS = [2, 4, 8, 16, 32, 48, 64, 80, 96, 112, 128]
+_calls = [0]
+
+
+def job_gowin(win, nout, margin, tag, device=("GW1N-9C", "GW1NR-LV9QN88PC6/I5")):
+    from migen import Signal
+    from litex.soc.cores.clock import gowin_gw1n
+    stubs((1, 2))
+    for n in ("compute_config_log", "register_clkin_log", "create_clkout_log"):
+        setattr(gowin_gw1n, n, lambda *a, **k: None)
+    (i0, iw), (f0_, fw) = win["idiv"], win["fdiv"]
+
+    def win_range(*a):
+        if a == (1, 64):
+            _calls[0] += 1
+            return builtins.range(i0, i0 + iw) if _calls[0] == 1 else builtins.range(f0_, f0_ + fw)
+        return builtins.range(*a)
+    gowin_gw1n.range = win_range
+    gowin_gw1n.int = sym_int
+
+    def body(ctx):
+        _calls[0] = 0
+        pll = gowin_gw1n.GW1NPLL(devicename=device[0], device=device[1])
+        clkin = ctx.real("clkin", Fraction(3e6), Fraction(400e6))
+        pll.clkin = Signal()
+        pll.clkin_freq = clkin
+        fs_ = []
+        for i in range(nout):
+            f = ctx.real("f%d" % i, Fraction(3e6), Fraction(600e6))
+            fs_.append(f)
+            pll.clkouts[i] = (Signal(), f, 0, ctx.exact(margin))
+        pll.nclkouts = nout
+        # stated bound: frequency ratios below 9 (the code's integer quotients are forked on)
+        for f in fs_[1:]:
+            ctx.assume(AND(f * 9 > fs_[0], fs_[0] * 9 > f))
+        vmin, vmax = pll.vco_freq_range
+        pmin, pmax = pll.pfd_freq_range
+        vm = Fraction(pll.vco_margin)
+
+        def base(idiv, fdiv, odiv, slack):
+            pfd = clkin / idiv
+            out = clkin * fdiv / idiv
+            vco = out * odiv
+            return out, AND(pfd >= Fraction(pmin) * (1 - slack), pfd <= Fraction(pmax) * (1 + slack), vco >= Fraction(vmin) * (1 + vm) * (1 - slack), vco <= Fraction(vmax) * (1 - vm) * (1 + slack))
+
+        def near(r, f, slack, strict):
+            # strict (completeness witness): within margin of BOTH the obtained and the requested frequency; lenient (soundness): of either
+            tol_f, tol_r = f * (Fraction(margin) + slack), r * (Fraction(margin) + slack)
+            d1, d2 = AND(r - f <= tol_f, f - r <= tol_f), AND(r - f <= tol_r, f - r <= tol_r)
+            return AND(d1, d2) if strict else OR(d1, d2)
+        try:
+            cfg = pll.compute_config()
+        except (ValueError, ZeroDivisionError):
+            ctx.event("refused")
+            # settings the primitive certainly offers: CLKOUT = out, CLKOUTD = out / even, CLKOUTD3 = out / 3 (one of each)
+            combos = [(1,)] if nout == 1 else [(1, 2), (2, 1), (1, 3), (3, 1), (1, 4), (4, 1), (2, 3), (3, 2)]
+            anyok = []
+            for idiv in range(i0, i0 + iw):
+                for fdiv in range(f0_, f0_ + fw):
+                    for odiv in ODIVS:
+                        out, ok = base(idiv, fdiv, odiv, -SL)
+                        for ks in combos:
+                            anyok.append(AND(ok, *[near(out / k, f, -SL, True) for k, f in zip(ks, fs_)]))
+            res = dict(refused_only_if_no_setting_in_window=NOT(OR(*anyok)))
+            if nout == 2:
+                # the same question for requests in an exact integer ratio 2, 3 or 4 (either order): no rounding question arises
+                exact = OR(*[OR(fs_[0] == k * fs_[1], fs_[1] == k * fs_[0]) for k in (2, 3, 4)])
+                res["integer_ratio_requests_refused_only_if_no_setting_in_window"] = OR(NOT(exact), NOT(OR(*anyok)))
+            return res
+        ctx.event("configured")
+        idiv, fdiv, odiv = cfg["idiv"], cfg["fdiv"], cfg["odiv"]
+        inr = idiv in range(i0, i0 + iw) and fdiv in range(f0_, f0_ + fw) and odiv in ODIVS
+        out, ok = base(idiv, fdiv, odiv, SL)
+        # which primitive output serves request i: the signal object handed to create_clkout is stored under CLKOUT / CLKOUTD / CLKOUTD3
+        outs = []
+        mapped = True
+        for i, f in enumerate(fs_):
+            sig = pll.clkouts[i][0]
+            ks = [k for name, k in (("CLKOUT", 1), ("CLKOUTP", 1), ("CLKOUTD", cfg["SDIV_SEL"]), ("CLKOUTD3", 3)) if cfg.get(name) is sig]
+            if len(ks) != 1:
+                mapped = False
+                continue
+            outs.append(near(out / ks[0], f, SL, False))
+        res = dict(dividers_inside_ranges=inr, vco_and_pfd_inside_declared_ranges=ok, every_request_mapped_to_one_primitive_output=mapped,
+                   outputs_within_margin=AND(*outs) if outs else False)
+        if nout == 2:
+            # requests that differ by at least a factor 1.5 cannot compete for the same primitive output
+            apart = OR(fs_[0] * 2 >= fs_[1] * 3, fs_[1] * 2 >= fs_[0] * 3)
+            res["distinct_requests_mapped_to_distinct_outputs"] = OR(NOT(apart), mapped)
+        return res
+    checks = ["dividers_inside_ranges", "vco_and_pfd_inside_declared_ranges", "every_request_mapped_to_one_primitive_output", "outputs_within_margin", "refused_only_if_no_setting_in_window"]
+    if nout == 2:
+        checks += ["integer_ratio_requests_refused_only_if_no_setting_in_window", "distinct_requests_mapped_to_distinct_outputs"]
+    return run_pysym("gw1npll_%s" % tag, body, checks, required_events=["configured", "refused"],
+                     funcs=["litex.soc.cores.clock.gowin_gw1n.GW1NPLL.compute_config"], cfg=dict(window=win, outputs=nout, margin=margin, device=device), replay_dir=rdir(), max_paths=400000)
